@@ -11,6 +11,7 @@ PLAN = dict(
     assumptions=TRUSTED + ["What the writer holds after a refused call sequence (ErrInvalidUTF8 / ErrDuplicatedKey) is unspecified and not compared, "
                            "except that the refused EncodeTextString call itself must not have written anything"],
     runs=[
+        dict(name="conc", run="^(TestConcTree)$", checks=(400, 20000), shards=(2, 8), timeout=(400, 3600), race=True),
         dict(name="exh", run="^(TestExhaustiveInts|TestExhaustiveCodePoints|TestCorpus)$"),
         dict(name="tree", run="^TestPropTree$", checks=(20000, 125000), shards=(1, 16)),
     ],
